@@ -77,4 +77,54 @@ pub proof fn lemma_step_exact(rel: Rel, st: St, e: Ev)
     reveal(step_rel);
 }
 
+// ---------------------------------------------------------------------------------------------
+// C09, last sentence, on scripts: an insertion sits at its latest position
+// ---------------------------------------------------------------------------------------------
+/// the first item an Insert event inserts differs from the old item at position o
+pub open spec fn differs_after(rel: Rel, e: Ev, o: usize) -> bool {
+    match e { Ev::Insert(io, inn, il) => !rel(o as int, inn as int), _ => true }
+}
+
+pub open spec fn is_ins_at(e: Ev, n: usize) -> bool { match e { Ev::Insert(io, inn, il) => inn == n, _ => false } }
+
+/// an Insert event directly followed by an Equal event cannot slide down across it (what is claimed for the captured script)
+pub open spec fn ev_late_at(rel: Rel, s: Seq<Ev>, i: int) -> bool {
+    match s[i + 1] { Ev::Equal(eo, en, el) => differs_after(rel, s[i], eo), _ => true }
+}
+
+pub open spec fn ev_late(rel: Rel, s: Seq<Ev>) -> bool { forall|i: int| 0 <= i && i + 1 < s.len() ==> #[trigger] ev_late_at(rel, s, i) }
+
+/// an Insert event is followed by nothing, by Finish, or by an Equal it cannot slide across (what the compaction sends)
+pub open spec fn ev_stuck_at(rel: Rel, s: Seq<Ev>, i: int) -> bool {
+    s[i] is Insert ==> match s[i + 1] { Ev::Equal(eo, en, el) => differs_after(rel, s[i], eo), Ev::Finish => true, _ => false }
+}
+
+pub open spec fn ev_stuck(rel: Rel, s: Seq<Ev>) -> bool { forall|i: int| 0 <= i && i + 1 < s.len() ==> #[trigger] ev_stuck_at(rel, s, i) }
+
+pub proof fn lemma_ev_stuck_prefix(rel: Rel, h: Seq<Ev>, e: Ev)
+  requires ev_stuck(rel, h.push(e))
+  ensures ev_stuck(rel, h), h.len() > 0 ==> ev_stuck_at(rel, h.push(e), h.len() - 1)
+{
+    let h2 = h.push(e);
+    assert forall|i: int| 0 <= i && i + 1 < h.len() implies #[trigger] ev_stuck_at(rel, h, i) by {
+        assert(ev_stuck_at(rel, h2, i));
+        assert(h2[i] == h[i] && h2[i + 1] == h[i + 1]);
+    }
+}
+
+pub proof fn lemma_ev_late_push(rel: Rel, em: Seq<Ev>, e: Ev)
+  requires ev_late(rel, em), (em.len() > 0 && e is Equal) ==> differs_after(rel, em.last(), e->Equal_0)
+  ensures ev_late(rel, em.push(e))
+{
+    let em2 = em.push(e);
+    assert forall|i: int| 0 <= i && i + 1 < em2.len() implies #[trigger] ev_late_at(rel, em2, i) by {
+        if i + 1 < em.len() {
+            assert(ev_late_at(rel, em, i));
+            assert(em2[i] == em[i] && em2[i + 1] == em[i + 1]);
+        } else {
+            assert(em2[i] == em.last() && em2[i + 1] == e);
+        }
+    }
+}
+
 } // verus!
